@@ -103,6 +103,18 @@ SK = {
         "user": {"Item": "rule"},
         "terms": {"semi": ";"},
     },
+    # element actions returning falsy values (0, '', []) at first and later positions, with and without separator
+    "falsy-elements": {
+        "text": "S: Item+[comma] ';' Item* ; Item: 'a' | 'z' | 'e';\nterminals\ncomma: ',';",
+        "prods": [("S", ("Item_1_comma", ";", "Item_0"), ("d",)), ("Item_1_comma", ("Item_1_comma", "comma", "Item"), ("collect_sep",)),
+                  ("Item_1_comma", ("Item",), ("one",)), ("Item_0", ("Item_1",), ("zero_some",)), ("Item_0", (), ("zero_none",)),
+                  ("Item_1", ("Item_1", "Item"), ("collect",)), ("Item_1", ("Item",), ("one",)),
+                  ("Item", ("a",), ("falsy", 1)), ("Item", ("z",), ("falsy", 0)), ("Item", ("e",), ("falsy", ""))],
+        "user": {},
+        "falsy": {"Item": [1, 0, ""]},
+        "maxN": 4,
+        "terms": {"comma": ","},
+    },
 }
 
 
@@ -110,7 +122,8 @@ def cases(tier, seed):
     out = []
     N = 5 if tier == "quick" else 7
     for nm in SK:
-        out.append({"name": "%s|N=%d" % (nm, N), "params": {"skel": nm, "N": N}, "budget_s": 1500 if tier == "quick" else 6000})
+        n_ = min(N, SK[nm].get("maxN", N)) if tier == "quick" else N
+        out.append({"name": "%s|N=%d" % (nm, n_), "params": {"skel": nm, "N": n_}, "budget_s": 1500 if tier == "quick" else 6000})
     out.append({"name": "twin:named", "params": {"skel": "named", "N": 3, "twin": True}, "expect_refuted": True, "budget_s": 300})
     return out
 
@@ -144,6 +157,8 @@ def make_actions(sk, calls):
             acts[rule] = mk(rule, None)
         else:
             acts[rule] = [mk(rule, k) for k in range(len(prods_of[rule]))]
+    for rule, vals in sk.get("falsy", {}).items():
+        acts[rule] = [(lambda _, n, _v=v: _v) for v in vals]
     for t in sk.get("term_actions", []):
         def tact(context, value, _t=t):
             res = ("T", _t, value)
@@ -174,6 +189,8 @@ def ref_eval(sk, spec, tree, w):
             for pos, (name, op) in named.items():
                 kw[name] = sub[pos] if op == "=" else bool(sub[pos])
             return ("R", tag[1], tag[2], tuple(sub), tuple(sorted(kw.items())))
+        if k == "falsy":
+            return tag[1]
         if k == "d":
             return sub[0] if len(sub) == 1 else sub
         if k == "collect":
